@@ -151,6 +151,19 @@ Definition stores_for (sel : phi_in -> bool) (hs : list nat) : list stmt :=
 Definition key_is (k : nat) (i : phi_in) : bool := Nat.eqb (pi_key i) k.
 Definition case_is (c : nat) (i : phi_in) : bool := (Nat.eqb (pi_key i) 4 && Nat.eqb (pi_case i) c)%bool.
 
+(* a case body also reaches the merge point of its switch through a `break` (directly in the body, in an if or in a
+   block; a break inside a nested loop or switch leaves that one): the incoming value of the case is stored there too *)
+Fixpoint before_breaks (st : list stmt) (s : stmt) : list stmt :=
+  let fix go (b : list stmt) : list stmt :=
+    match b with [] => [] | x :: b' => before_breaks st x ++ go b' end in
+  match s with
+  | SBreak => st ++ [SBreak]
+  | SIf c a r => [SIf c (go a) (go r)]
+  | SBlock b => [SBlock (go b)]
+  | _ => [s]
+  end.
+Definition before_breaks_block (st : list stmt) (b : list stmt) : list stmt := flat_map (before_breaks st) b.
+
 Fixpoint dstmt (after : list nat) (s : stmt) : list stmt :=
   let fix go (b : list stmt) : list stmt :=
     match b with [] => [] | x :: b' => dstmt (leading_emits b') x ++ go b' end in
@@ -161,7 +174,9 @@ Fixpoint dstmt (after : list nat) (s : stmt) : list stmt :=
     [SSwitch sel ((fix goc (idx : nat) (cs : list (switch_value * list stmt * bool)) :=
                      match cs with
                      | [] => []
-                     | (v, b, ft) :: cs' => (v, go b ++ stores_for (case_is idx) after, ft) :: goc (S idx) cs'
+                     | (v, b, ft) :: cs' =>
+                       let st := stores_for (case_is idx) after in
+                       (v, before_breaks_block st (go b) ++ st, ft) :: goc (S idx) cs'
                      end) 0 cases)]
   | SLoop b c bi => [SLoop (go b) (go c) bi]
   | SBlock b => [SBlock (go b)]
